@@ -38,7 +38,7 @@ def run(prog: Program, rep: Report, tier: str) -> None:
                f"unreachable when {atom} is false" if ok else f"reachable although {atom} is false (or the guard tests a different pair)")
         # the loops enumerate all pairs
         loops = [cfg.nodes[h].stmt for h in cfg.nodes[n].loops]
-        its = [norm(l.iter) for l in loops]
+        its = [norm(inline_temps(f.node, l.iter)) for l in loops]      # `rules2 = hrg2.all_rules()` hoisted out of the outer loop
         p = f.positional_params()
         ok2 = sorted(its) == sorted([f"{p[0]}.all_rules()", f"{p[1]}.all_rules()"])
         rep.ob('C17-D1 guard-dominance', f.fq(), 'every pair of rules of the two grammars is tried', f.loc(c), ok2, f"enclosing loops iterate over {its}")
@@ -60,7 +60,7 @@ def run(prog: Program, rep: Report, tier: str) -> None:
     check_generators_once(rep, prog, 'C17-D2 fresh-name one-shot', [prog.func('fggs.utils', 'unique_label_name')])
     rep.floor('C17-D2', k, 1)
     loops = [n for n in own_nodes(np.node) if isinstance(n, ast.For)]
-    its = sorted(norm(l.iter) for l in loops)
+    its = sorted(norm(inline_temps(np.node, l.iter)) for l in loops)
     pp = np.positional_params()
     ok = its == sorted([f"{pp[0]}.nonterminals()", f"{pp[1]}.nonterminals()"])
     rep.ob('C17-D2 fresh-name', np.fq(), 'a paired nonterminal is created for every pair of nonterminals', np.loc(), ok, f"loops over {its}")
@@ -131,6 +131,31 @@ def conjoinable_rule(rep: Report, prog: Program) -> None:
         if both and '.ext' in txt: roles['externals'] = True
     for k, v in roles.items():
         rep.ob('C17-D1 conjoinable', f.fq(), f"compares the {k} of both rules", f.loc(), v, '' if v else f"no comparison involves the {k} of both rules")
+    # the converse: when the defining comparisons all hold, nothing else may reject the pair.  A count comparison of the
+    # duplicate-free views `.nodes()` / `.edges()` of the two rules is implied by the node comparison and is allowed as a cheap
+    # pre-check; any other test that can reach `return False` makes conjoinable() stricter than its definition.
+    defining = {}
+    for t in eq_atoms:
+        a = atoms[t]
+        txt = ' '.join(src.get(x, x) for x in names_in(a)) + ' ' + norm(a)
+        if p1 in txt and p2 in txt and ('.nodes()' in txt or 'edges()' in txt or '.ext' in txt) and 'len(' not in norm(a):
+            defining[t] = True
+    implied = {}
+    for t, a in atoms.items():
+        if isinstance(a, ast.Compare) and len(a.ops) == 1 and isinstance(a.ops[0], (ast.Eq, ast.NotEq)):
+            sides = [a.left, a.comparators[0]]
+            if all(isinstance(x, ast.Call) and callee_last(x) == 'len' and len(x.args) == 1 and isinstance(x.args[0], ast.Call)
+                   and callee_last(x.args[0]) in ('nodes', 'edges') and not x.args[0].args for x in sides) \
+                    and callee_last(sides[0].args[0]) == callee_last(sides[1].args[0]) \
+                    and {(p1 in norm(x)) for x in sides} == {True, False} | ({True} if p1 == p2 else set()):
+                implied[t] = True
+    rets_false = [n for n, nd in cfg.nodes.items() if nd.kind == 'return' and isinstance(nd.expr, ast.Constant) and nd.expr.value is False]
+    r = walk(cfg, cfg.entry, Env(atoms={**defining, **implied}), unknown='both')
+    extra = [n for n in rets_false if n in r]
+    others = sorted(set(atoms) - set(defining) - set(implied))
+    rep.ob('C17-D1 conjoinable', f.fq(), 'rules with equal nodes, nonterminal skeleton and externals are conjoinable (no further condition rejects them)', f.loc(), not extra,
+           'with the defining comparisons true every path returns True' if not extra else
+           f"`return False` is still reachable when the defining comparisons all hold, through: {others}: pairs the definition accepts are dropped from the conjunction")
     # externals are a sequence (the i-th external of the pair is the i-th external of each rule) and an attachment is a sequence:
     # the comparison must keep the order -- no set / frozenset / sorted / Counter around either
     def unordered(e: ast.AST) -> Optional[str]:
@@ -249,6 +274,7 @@ def shape_rules(rep: Report, prog: Program) -> None:
                 for s in own_nodes(f.node):
                     if isinstance(s, ast.Assign) and any(isinstance(t, ast.Name) and t.id == a.id for t in s.targets):
                         srcs.append(s.value)
+        srcs = [inline_temps(f.node, s_) for s_ in srcs]      # `by_id = attrgetter('id')` named once
         ok = len(srcs) == 2 and all(isinstance(s, ast.Call) and callee_last(s) == 'sorted' and any(k.arg == 'key' and ('.id' in norm(k.value) or norm(k.value) in ("attrgetter('id')", "operator.attrgetter('id')")) for k in s.keywords) for s in srcs)
         rep.ob(rule, f.fq(), 'nonterminal edges of both rules are paired in id order', f.loc(l), ok, '' if ok else 'the two lists are not both sorted by edge id before zipping')
     rep.floor('C17-D4 paired edges', int(okz), 1)
